@@ -22,6 +22,9 @@ PROTOCOL = [("magic0", 0, "<I"), ("magic1", 4, "<I"), ("size", 8, "<I"), ("versi
             ("bound", 48, "<q"), ("max_drift", 56, "<I"), ("reserved", 60, "<I"), ("status", 64, "<i")]
 
 
+NOPATH = {4: 20, 5: 40, 6: 36}      # corpus kind -> errno: ENOTDIR, ELOOP, ENAMETOOLONG
+
+
 def build_c_driver():
     so_dir = os.path.dirname(c.build_repo_binary("clock-bound-ffi", "release", "libclockbound.so"))
     out = os.path.join(c.BUILD, "cdriver")
@@ -76,6 +79,10 @@ def gen_corpus(rng, n_random):
     out.append(("missing", 1, b""))
     out.append(("directory", 2, b""))
     out.append(("missing-parent", 3, b""))
+    # paths that cannot be resolved: every opener must report the failing system call with its errno
+    out.append(("parent-is-a-regular-file", 4, b""))
+    out.append(("symlink-loop", 5, b""))
+    out.append(("name-too-long", 6, b""))
     for _ in range(n_random):
         k = rng.random()
         if k < 0.3:
@@ -103,6 +110,14 @@ def materialize(root, idx, kind, data, suffix):
         os.makedirs(path)
     elif kind == 3:
         path = os.path.join(d, "no", "such", "dir", "shm")
+    elif kind == 4:
+        with open(os.path.join(d, "clockbound"), "wb") as f:
+            f.write(b"stale file where the directory should be")
+        path = os.path.join(d, "clockbound", "shm")
+    elif kind == 5:
+        os.symlink("shm", path)                      # shm -> shm
+    elif kind == 6:
+        path = os.path.join(d, "x" * 300)
     return path
 
 
@@ -128,6 +143,8 @@ def oracle_open(kind, data):
     """documented outcome of opening, from the property text and PROTOCOL.md"""
     if kind in (1, 3):
         return "syscall:%d:%d" % (ENOENT, 1)
+    if kind in NOPATH:
+        return "syscall:%d:%d" % (NOPATH[kind], 1)
     if kind == 2:
         return "syscall:%d:%d" % (EISDIR, 2)
     if len(data) < 16:
@@ -163,7 +180,9 @@ def run_corpus(res, pid, rng, n_random):
         paths.append((pr, pc)); clocks.append(clk); recs.append(r)
         rust_lines.append("seg %s %d %d %d %d" % ((pr,) + clk))
         c_lines.append("seg %s %d %d %d %d" % ((pc,) + clk))
-        mk = 0 if kind == 0 else (2 if kind == 2 else 1)
+        mk = 0 if kind == 0 else (2 if kind == 2 else (3 if kind in NOPATH else 1))
+        if kind in NOPATH:
+            data = bytes([NOPATH[kind]])             # the model's FNoPath carries the errno
         bl = " ".join(str(x) for x in data)
         model_lines.append(("seg %d %d %s %d %d %d %d" % ((mk, len(data), bl) + clk)).replace("  ", " "))
         wrt_lines.append("wrt %s %d %d %d %d %d %d %d" % ((pr,) + r))
